@@ -19,7 +19,9 @@ ROOT = os.path.dirname(os.path.dirname(os.path.abspath(__file__)))
 REPO = os.environ.get('VERIF_REPO', '/repo')
 LEAN = os.path.join(ROOT, 'lean')
 BUILD = os.path.join(ROOT, '.build')
-EVID = os.path.join(ROOT, 'evidence')
+# evidence/ describes /repo itself: a run against a COPY of the library (VERIF_REPO, used to try seeded
+# changes and mutations) writes its evidence under .build/ instead, so it can never be committed by mistake
+EVID = os.path.join(ROOT, 'evidence') if os.path.realpath(REPO) == '/repo' else os.path.join(BUILD, 'evidence_of_copy')
 REPLAYS = os.path.join(ROOT, 'replays')
 KNOWN = os.path.join(ROOT, 'KNOWN_FINDINGS.txt')
 GUARD = 'OSMIUM_VERIF'
